@@ -583,7 +583,7 @@ def run(chk, p, t):
         "the job identity field of each result class (JOB_KEY table) is in 1-1 correspondence with the enqueue loop variable",
     ]
     ea = EffectAnalysis(p, t)
-    for fn in (rule_r1, rule_r2, rule_r3, rule_r4, rule_r5, rule_r6):
+    for fn in (rule_r1, rule_r2, rule_r3, rule_r4, rule_r5, rule_r6, rule_r7):
         rid = "C08.R" + fn.__name__[-1]
         if not chk.wants(rid):
             continue
@@ -729,6 +729,100 @@ def rule_r5(chk, p, t, ea):
 
 # ====================================================================== R6
 _INDEX_CALLS = {"where", "nonzero", "flatnonzero", "argwhere"}
+
+
+def rule_r7(chk, p, t, ea):
+    r = chk.rule(
+        "C08.R7",
+        "an executed tasking always restarts the sensor's pointing state",
+        1,
+        "Sensor.collectObservations returns (.., .., self.boresight, self.time_last_tasked) and the scenario copies both "
+        "into the sensing agent after the step; when the slew is feasible (the canSlew branch, where the observation is "
+        "attempted) both fields must have been written on EVERY path before the return - directly or by a helper that "
+        "writes them on every one of its own paths - with time_last_tasked = self.host.time.  A conditional update "
+        "(e.g. skipped when the sensor is already on target) leaves the previous tasking's clock in place, and later "
+        "steps credit the sensor with slew time it has already spent",
+        "the value of the boresight vector",
+    )
+    from rsa.cfg import cfg_of
+
+    cls = p.cls("resonaate.sensors.sensor_base.Sensor")
+    co = cls.methods.get("collectObservations")
+    FIELDS = ("boresight", "time_last_tasked")
+
+    def writes_nodes(fn, field, depth=2):
+        """CFG nodes of fn that certainly write self.<field>: direct stores, or calls of a self-method that writes it on
+        every path of its own."""
+        cfg = cfg_of(fn)
+        out = []
+        for n in cfg.nodes:
+            a = n.ast
+            if a is None or n.kind not in ("stmt",):
+                continue
+            tgs = []
+            if isinstance(a, ast.Assign):
+                tgs = a.targets
+            elif isinstance(a, (ast.AugAssign, ast.AnnAssign)):
+                tgs = [a.target]
+            flat = []
+            for tg in tgs:
+                flat.extend(tg.elts if isinstance(tg, (ast.Tuple, ast.List)) else [tg])
+            if any(isinstance(tg, ast.Attribute) and tg.attr == field and isinstance(tg.value, ast.Name) and tg.value.id == "self" for tg in flat):
+                out.append(n.id)
+                continue
+            if depth > 0:
+                for c in ast.walk(a):
+                    if isinstance(c, ast.Call) and isinstance(c.func, ast.Attribute) and isinstance(c.func.value, ast.Name) and c.func.value.id == "self":
+                        mm = p.lookup_method(fn.cls or cls, c.func.attr)
+                        if mm is None and c.func.attr in cls.setters:
+                            mm = None
+                        if mm is not None and mm.kind not in ("property",) and must_write(mm, field, depth - 1):
+                            out.append(n.id)
+                            break
+        return out
+
+    def must_write(fn, field, depth):
+        cfg = cfg_of(fn)
+        via = writes_nodes(fn, field, depth)
+        return bool(via) and cfg.must_pass(cfg.exit.id, via_nodes=via)
+
+    def one():
+        cfg = cfg_of(co)
+        slew = [n for n in cfg.nodes if n.kind == "cond" and isinstance(n.ast, ast.Call) and call_name(n.ast) == "canSlew"]
+        require(len(slew) == 1, "collectObservations does not branch on canSlew exactly once", co.node)
+        starts = [dst for dst, lab in cfg.succ[slew[0].id] if lab is True]
+        require(starts, "no feasible-slew branch", slew[0].ast)
+        rets = [n for n in cfg.nodes if n.kind == "return"]
+        for field in FIELDS:
+            via = writes_nodes(co, field)
+            bad = [rt for rt in rets if any(rt.id in cfg.reachable(s0, blocked_nodes=via) and s0 not in via for s0 in starts)]
+            if not via:
+                r.violation(co.qualname, f"pointing-never-written:{field}", f"collectObservations never writes self.{field} on the feasible-slew branch", co.loc())
+            elif bad:
+                r.violation(
+                    co.qualname,
+                    f"pointing-conditional:{field}",
+                    f"on the feasible-slew branch of collectObservations a path reaches the return (line {bad[0].lineno}) without writing self.{field}: "
+                    "the tasking is executed but the sensor keeps the pointing state of an earlier tasking, which is what the scenario then copies into the sensing agent",
+                    co.loc(bad[0].ast),
+                )
+            else:
+                r.ok(co.qualname + ":" + field, f"written on every path of the feasible-slew branch ({len(via)} writing statement(s))", co.loc())
+        # the clock value
+        vals = []
+        for fn in [co] + [m for m in cls.methods.values() if m is not co]:
+            for n in walk_no_nested(fn.node):
+                if isinstance(n, ast.Assign) and any(isinstance(tg, ast.Attribute) and tg.attr == "time_last_tasked" and unparse(tg.value) == "self" for tg in n.targets) and fn.name not in ("__init__",) and fn.kind != "setter":
+                    vals.append((fn, n))
+        for fn, n in vals:
+            if fn.name == "time_last_tasked":
+                continue
+            if unparse(n.value) == "self.host.time":
+                r.ok(fn.qualname + ":clock", "time_last_tasked = self.host.time", fn.loc(n))
+            else:
+                r.violation(fn.qualname, f"pointing-clock:{unparse(n.value)[:40]}", f"time_last_tasked is set to `{unparse(n.value)}`, not to the host's current time", fn.loc(n))
+
+    r.guard(co.qualname, one)
 
 
 def rule_r6(chk, p, t, ea):
